@@ -910,6 +910,46 @@ func (c *Ctx) RuleSentinelOnlyInGuards(sentinel *ssa.Global, fns []*ssa.Function
 	}
 }
 
+// RuleLimitOnce: a function that guards on MaxInputLength (it produces the sentinel) is not re-entered from the code
+// it reaches: the limit is a property of the caller's input, applying it again to data derived from that input
+// (a decoded JSON string, a sub-slice) can reject an input that is within the limit.
+func (c *Ctx) RuleLimitOnce(sentinel *ssa.Global, fns []*ssa.Function) {
+	for _, g := range fns {
+		if g.Name() == "init" {
+			continue
+		}
+		guards := false
+		for _, b := range g.Blocks {
+			for _, in := range b.Instrs {
+				if u, ok := in.(*ssa.UnOp); ok && u.X == ssa.Value(sentinel) {
+					guards = true
+				}
+			}
+		}
+		if !guards {
+			continue
+		}
+		bad := false
+		for _, f := range SortedFuncs(c.Reachable(g)) {
+			for _, b := range f.Blocks {
+				for _, in := range b.Instrs {
+					call, ok := in.(ssa.CallInstruction)
+					if !ok {
+						continue
+					}
+					if callee := c.StaticCallee(call.Common()); callee != nil && origin(callee) == origin(g) {
+						bad = true
+						c.addc("violated", "C18.L", g, in.Pos(), "limit once", FnName(f)+" re-enters "+FnName(g)+", which applies MaxInputLength again to data derived from the input: an input within the limit can be rejected as too long", "")
+					}
+				}
+			}
+		}
+		if !bad {
+			c.addc("discharged", "C18.L", g, g.Pos(), "limit once", "the length guard is applied to the caller's input only: nothing reachable from "+FnName(g)+" calls it again", "")
+		}
+	}
+}
+
 // isJSONObjectKey: the asserted value is result #0 of a decoder Token() call in a function that also asks the
 // decoder More() (i.e. the token read at a member boundary of an object).
 func isJSONObjectKey(fn *ssa.Function, ta *ssa.TypeAssert) bool {
